@@ -46,6 +46,9 @@ def step (cs : CaseSt) (op obs : String) : CaseSt × R :=
   | some "pushorder" =>
     let bad := zeroFields obs ["panics", "wrong", "races"]
     (cs, { model := "panics=0 wrong=0 races=0", mon := bad.map (fun k => if k == "wrong" then "C11.concurrent.pop_order_by_id" else "C11.concurrent." ++ k), branch := "pushorder" })
+  | some "peeklive" =>
+    let bad := zeroFields obs ["panics", "wrong", "races"]
+    (cs, { model := "panics=0 wrong=0 races=0", mon := bad.map (fun k => if k == "wrong" then "C11.concurrent.peek_finds_live_id" else "C11.concurrent." ++ k), branch := "peeklive" })
   | some "twopop" =>
     let bad := zeroFields obs ["panics", "wrong", "races"]
     (cs, { model := "panics=0 wrong=0 races=0", mon := bad.map ("C11.concurrent." ++ ·), branch := "twopop" })
@@ -74,7 +77,7 @@ def step (cs : CaseSt) (op obs : String) : CaseSt × R :=
 
 def canonImpl (op obs : String) : String :=
   match (words op).head? with
-  | some "twopop" | some "pushorder" => let fs := fieldsOf (words obs); s!"panics={(getNat fs "panics").getD 0} wrong={(getNat fs "wrong").getD 0} races={(getNat fs "races").getD 0}"
+  | some "twopop" | some "pushorder" | some "peeklive" => let fs := fieldsOf (words obs); s!"panics={(getNat fs "panics").getD 0} wrong={(getNat fs "wrong").getD 0} races={(getNat fs "races").getD 0}"
   | some "stress" =>
     let fs := fieldsOf (words obs)
     let g (k : String) := (getNat fs k).getD 0
@@ -95,7 +98,7 @@ partial def loop (h : IO.FS.Stream) (st : Stats) (cs : CaseSt) (caseNo : String)
     let (cs', r) := step cs op obs
     let mut st := { st with ops := st.ops + 1 }
     st := st.bump r.branch
-    if op.startsWith "stress" || op.startsWith "twopop" || op.startsWith "pushorder" then
+    if op.startsWith "stress" || op.startsWith "twopop" || op.startsWith "pushorder" || op.startsWith "peeklive" then
       st := { st with nontrivial := st.nontrivial.insert (hash op) }
     if r.model != canonImpl op obs then
       IO.println s!"DIFF case={caseNo} line={lineNo} model=[{r.model}] impl=[{obs}] op=[{op}]"
